@@ -51,8 +51,39 @@ def user_fn2(acc, step):
     return lib, direct, acc * 2
 
 
+@eager_propagate
+def user_fn3(a, b):
+    """Several outputs, some of them the very same array (and nullable results that reuse one mask object)."""
+    s_ = a + b
+    t_ = a * b
+    return s_, s_, t_, s_ - t_
+
+
 def handle(case):
     k = case["kind"]
+    if k == "propagate3":
+        def go():
+            vals = {n: nd.dec_array(t) for n, t in case["values"].items()}
+            res = {}
+            for lazy_set in case["lazy_sets"]:
+                ins = {n: ndx.array(shape=tuple(case["values"][n]["shape"]), dtype=nd.dt(case["values"][n]["dtype"])) for n in lazy_set}
+                arrs = {n: (ins[n] if n in lazy_set else ndx.asarray(vals[n].copy())) for n in ("a", "b")}
+                outs = user_fn3(arrs["a"], arrs["b"])
+                r = {"values": [None if o.to_numpy() is None else nd.enc_array(o.to_numpy()) for o in outs]}
+                named = {f"o{i}": ndx.asarray(o, copy=True) if False else o for i, o in enumerate(outs)}
+                # the same array under two output names is built through copies (one graph output per name)
+                named = {"o0": outs[0], "o1": outs[1] + 0, "o2": outs[2], "o3": outs[3]}
+                model = ndx.build(ins, named)
+                feeds = {}
+                for n in lazy_set:
+                    feeds.update(nd.feeds_for(n, case["values"][n]))
+                got = nd.run_model(model, feeds, named)
+                r["model"] = [nd.enc_array(got[k_]) for k_ in ("o0", "o1", "o2", "o3")]
+                res[",".join(sorted(lazy_set)) or "-"] = r
+            a, b = vals["a"], vals["b"]
+            res["oracle"] = [nd.enc_array(a + b), nd.enc_array(a + b), nd.enc_array(a * b), nd.enc_array((a + b) - a * b)]
+            return {"ok": res}
+        return _guard(go)
     if k == "propagate2":
         def go():
             vals = {n: nd.dec_array(t) for n, t in case["values"].items()}
